@@ -339,11 +339,11 @@ SPECS['C06'] = dict(
                 'reloads the spool must hold, per user, exactly the tasks (UID and owner) acknowledged as of the last completed checkpoint (or as of that user\'s own last completed rename when the '
                 'interrupted checkpoint got that far); after a clean shutdown exactly the acknowledged state.'),
     level_note='death of the process, not of the machine: durability of renamed files across power loss (fsync) is outside the property and the harness',
-    rule=('history = 3..24 (thorough 60) ops of 3 users over 8 UIDs each: add/replace (1..3 events, plain/MAX-SIMUL/long DESCRIPTION/mail attributes), cancel, CHK (timer checkpoint), GET /queue, final SHUT or CHK; '
+    rule=('history = 3..24 (thorough 50) ops of 4 users (root included; 1 history in 6 has 20 more) over 8 UIDs each: add/replace (1..3 events, plain/MAX-SIMUL/long DESCRIPTION/mail attributes), cancel, CHK (timer checkpoint), GET /queue, final SHUT or CHK; '
           '1 in 6 histories floods the 16-slot dirty set; every history is run under every fault point (evidence.extra.fault_runs counts sessions); non-trivial = the history has >= 8 checkpoint system calls'),
     assumptions=['tasks are YEARLY rules in the future (no retirement during the history)', 'a checkpoint operation that saw a failing call is not counted as completed'],
     quick=dict(workers=16, cases=5, size=100, timeout=1500, opts={'maxops': 24, 'kinds': 2}),
-    thorough=dict(workers=16, cases=120, size=100, timeout=7200, opts={'maxops': 60}),
+    thorough=dict(workers=16, cases=40, size=100, timeout=7200, opts={'maxops': 50}),
 )
 
 
